@@ -17,6 +17,29 @@ def ObjDisj (obj : NTT_Goldilocks) : Prop :=
 
 theorem ofU64_bv' (v : Nat) (h : v < 2 ^ 31) : I32.ofU64 (bv v) = (v : Int) := ofU64_bv v h
 
+/-- `computeR` overwrites `r`, `r_` before it reads them: their values at the call do not matter (the source may or may not
+    reset them to NULL after `delete[]`) -/
+theorem computeR_irrel (fuel : Nat) (X : Heap) (self : NTT_Goldilocks) (a b : Ptr) (N : Int) :
+    NTT_computeR fuel X { self with r := a, r_ := b } N = NTT_computeR fuel X self N := by
+  unfold NTT_computeR
+  rfl
+
+/-- `refresh_rw href (X3, self') : self, n`: the cache refresh of the translated `extendPol` — the first `Option.bind` argument
+    of the goal, HOWEVER the source writes it (one nested `if`, two sequential `if`s with the pointers reset, …) — is replaced
+    by the value `href` states for the canonical text of `refresh_gen`.  Both texts are evaluated in the four cases
+    `r == NULL` × `r_N == n`, where they coincide. -/
+macro "refresh_rw " href:ident v:term " : " self:term ", " n:term : tactic => `(tactic| (
+  name_bind_arg G with hG
+  have hGv : G = some $v := by
+    rw [← hG]
+    cases hr0 : (($self).r == Ptr.null) <;> cases hn0 : (($self).r_N == $n) <;>
+      simp only [hr0, hn0, bne, Bool.not_true, Bool.not_false, Bool.true_or, Bool.false_or, Bool.or_true, Bool.or_false,
+        Bool.true_and, Bool.false_and, Bool.and_true, Bool.and_false, if_true, if_false, Bool.false_eq_true, computeR_irrel,
+        beq_self_eq_true] at $href:ident ⊢ <;>
+      exact $href
+  rw [hGv]
+  clear hGv hG))
+
 /-- **cache refresh** `if (r == NULL || r_N != N) { if (r != NULL) { delete[] r; delete[] r_; } computeR(N); }` = the model's
     `refreshCache`; blocks other than the old tables are unchanged, the new tables are new blocks -/
 theorem refresh_gen (fuel : Nat) (hf : 64 ≤ fuel) (X : Heap) (self : NTT_Goldilocks) (o : Model.Ntt.Obj)
@@ -337,7 +360,7 @@ theorem extendPol_gen (fuel : Nat) (hf : 64 ≤ fuel) (hp : Heap) (self : NTT_Go
   have hnull : ((Ptr.null : Ptr) == Ptr.null) = true := by decide
   rw [hdivE, hcE]
   simp only [Option.bind_some, hnull, if_true, hcnt, Heap.alloc_fst, Heap.alloc_snd]
-  rw [href]
+  refresh_rw href (X3, self') : self, bv (2 ^ dn)
   simp only [Option.bind_some, hs1]
   rw [hI1]
   simp only [Option.bind_some]
